@@ -319,12 +319,26 @@ func (x *c02Run) execCLI() Res {
 	if x.cs.Cfg.Strict {
 		args = append(args, "--strict")
 	}
+	fromFile := len(x.src)%2 == 0
+	if fromFile { // `liquid FILE` instead of standard input
+		f, err := os.CreateTemp("", "verif-cli-*.liquid")
+		if err == nil {
+			f.WriteString(x.src)
+			f.Close()
+			defer os.Remove(f.Name())
+			args = append(args, f.Name())
+		} else {
+			fromFile = false
+		}
+	}
 	cmd := exec.Command(x.cli, args...)
 	cmd.Env = []string{}
 	for i, n := range x.cs.Env.Names {
 		cmd.Env = append(cmd.Env, n+"="+x.cs.Env.Vals[i].S)
 	}
-	cmd.Stdin = strings.NewReader(x.src)
+	if !fromFile {
+		cmd.Stdin = strings.NewReader(x.src)
+	}
 	var so, se bytes.Buffer
 	cmd.Stdout, cmd.Stderr = &so, &se
 	err := cmd.Run()
